@@ -166,6 +166,11 @@ def oracle_soh(run):
                 return "thread %d still held object %d, which was already destroyed" % (tid, i)
             if i in held.get(tid, []):
                 held[tid].remove(i)
+        elif k == "mac":
+            c = cur.get(tid)
+            teardown = c is not None and c["f"][0] == "dtor" and c["unlocks"] > 0 and c["locks"] == c["unlocks"]
+            if owner != tid and not teardown:
+                return "thread %d accessed %s without holding mapLock" % (tid, t[1])
         elif k == "pdt":
             i = int(t[1])
             if i in dead:
@@ -209,9 +214,9 @@ SOH_TIE = (" The model is tied to the source on every run: the unmodified header
 
 
 def register(PROPS, COMPONENTS):
-    COMPONENTS["soh"] = dict(client="soh", driver="soh", directed_runs=4, quick_runs=4000, thorough_runs=60000,
+    COMPONENTS["soh"] = dict(client="soh", driver="soh", tap=True, directed_runs=4, quick_runs=4000, thorough_runs=60000,
                              oracle=oracle_soh)
-    COMPONENTS["soh-asan"] = dict(client="soh", driver="soh", directed_runs=3, quick_runs=2000, thorough_runs=30000,
+    COMPONENTS["soh-asan"] = dict(client="soh", driver="soh-notap", directed_runs=3, quick_runs=2000, thorough_runs=30000,
                                   oracle=oracle_soh,
                                   flags=("-fsanitize=address,undefined", "-fno-sanitize-recover=all", "-fno-omit-frame-pointer"))
     PROPS["C17"] = dict(
